@@ -1,5 +1,5 @@
 """C01 -- the returned upper bound is backed by a complete, checkable dual certificate."""
-from . import pepsolve, wrappers, formula, dictops
+from . import pepsolve, wrappers, formula, dictops, mosekprog
 
 LEVEL = "other"
 EXPLANATION = ("Structure of the certificate bookkeeping on every path: every send is paired with the tracking append of the same object and the "
@@ -19,6 +19,7 @@ def run(ctx):
     wrappers.r_slots(ctx)
     wrappers.r_sign(ctx)
     wrappers.r_sense(ctx)       # the solver constraint is the constraint as written, unscaled: its multiplier is the constraint's multiplier
+    mosekprog.r_mosek_duals(ctx)  # MOSEK: multiplier k is read at the row / matrix variable of tracked object k, for every sequence of kinds up to length 3
     pepsolve.r_ret(ctx)
     pepsolve.r_order(ctx)
     dictops.r_dictops(ctx)      # the constant of the identity is read from prune(symmetrize(decomposition))
